@@ -5,6 +5,7 @@
 #include <sstream>
 #include <unistd.h>
 #include <votca/xtp/checkpoint.h>
+#include <votca/xtp/checkpointtable.h>
 using namespace votca;
 using namespace votca::xtp;
 
@@ -100,6 +101,68 @@ static Val read_val(CheckpointReader &rd, const std::string &kind, const std::st
   return v;
 }
 
+// ---- structured table rows (CptTable): the row type of the harness mirrors the row types of the library (Atom::data, PotentialIO::data)
+struct RowIO {
+  struct data { Index id; char *label; double x; double w; Index k; };
+  static void SetupCptTable(CptTable &t) {
+    t.addCol<Index>("id", HOFFSET(data, id));
+    t.addCol<std::string>("label", HOFFSET(data, label));
+    t.addCol<double>("x", HOFFSET(data, x));
+    t.addCol<double>("w", HOFFSET(data, w));
+    t.addCol<Index>("k", HOFFSET(data, k));
+  }
+};
+struct RowVal { long id; std::string label; double x, w; long k; };
+
+static std::vector<RowVal> gen_rows(Rng &r, int n) {
+  std::vector<RowVal> v;
+  for (int i = 0; i < n; i++) v.push_back({r.coin(1, 5) ? 9223372036854775807L : r.range(-1000, 1000), rstr(r), rdbl(r), rdbl(r), r.range(-5, 5)});
+  return v;
+}
+static void show_rows(std::ostringstream &o, const std::vector<RowVal> &v) {
+  o << " " << v.size();
+  for (auto &x : v) o << " " << x.id << " " << hexs(x.label) << " " << dexact(x.x) << " " << dexact(x.w) << " " << x.k;
+}
+static void write_rows(CheckpointWriter &w, const std::string &name, const std::vector<RowVal> &v) {
+  CptTable table = w.openTable<RowIO>(name, v.size());
+  std::vector<RowIO::data> buf(v.size());
+  for (size_t i = 0; i < v.size(); i++) { buf[i].id = v[i].id; buf[i].label = const_cast<char *>(v[i].label.c_str()); buf[i].x = v[i].x; buf[i].w = v[i].w; buf[i].k = v[i].k; }
+  table.write(buf);
+}
+
+// one table: written, optionally written again under the same name (same or different number of rows), read from a fresh handle
+static void table_scenario(Rng &r, long id) {
+  std::string file = tmpdir() + "/c17t_" + std::to_string((int)getpid()) + "_" + std::to_string(id) + ".hdf5";
+  unlink(file.c_str());
+  static const char *paths[] = {"/", "/g1", "/g1/sub"};
+  std::string path = paths[r.below(3)];
+  int n1 = 1 + (int)r.below(6);
+  bool again = r.coin();
+  int n2 = again ? (r.coin() ? n1 : 1 + (int)r.below(6)) : 0;
+  std::vector<RowVal> a = gen_rows(r, n1), b = gen_rows(r, n2);
+  std::ostringstream o;
+  o << "C17 tbl " << hexs(path);
+  show_rows(o, a);
+  o << " " << (again ? 1 : 0);
+  show_rows(o, b);
+  std::string st1 = "ok", st2 = again ? "ok" : "-", st3 = "ok";
+  try { CheckpointFile f(file, CheckpointAccessLevel::CREATE); CheckpointWriter w = writer_at(f, path); write_rows(w, "T", a); } catch (std::exception &e) { st1 = "err"; }
+  if (again) { try { CheckpointFile f(file, CheckpointAccessLevel::MODIFY); CheckpointWriter w = writer_at(f, path); write_rows(w, "T", b); } catch (std::exception &e) { st2 = "err"; } }
+  std::vector<RowVal> back;
+  try {
+    CheckpointFile f(file, CheckpointAccessLevel::READ);
+    CheckpointReader rd = reader_at(f, path);
+    CptTable table = rd.openTable<RowIO>("T");
+    std::vector<RowIO::data> buf(table.numRows());
+    table.read(buf);
+    for (auto &d : buf) back.push_back({(long)d.id, d.label ? std::string(d.label) : std::string("<null>"), d.x, d.w, (long)d.k});
+  } catch (std::exception &e) { st3 = "err"; }
+  o << " | " << st1 << " " << st2 << " " << st3;
+  show_rows(o, back);
+  unlink(file.c_str());
+  printf("%s\n", o.str().c_str());
+}
+
 static void scenario(Rng &r, long id) {
   std::string file = tmpdir() + "/c17_" + std::to_string((int)getpid()) + "_" + std::to_string(id) + ".hdf5";
   unlink(file.c_str());
@@ -159,6 +222,6 @@ int main(int argc, char **argv) {
     while (std::getline(std::cin, line)) if (line.rfind("C17", 0) == 0) printf("%s\n", line.c_str());
     return 0;
   }
-  for (long i = 0; i < N; i++) scenario(r, i);
+  for (long i = 0; i < N; i++) { if (r.coin(1, 6)) table_scenario(r, i); else scenario(r, i); }
   return 0;
 }
